@@ -370,7 +370,9 @@ func (e *C17) syncLevel(ctx *core.Ctx) {
 	}
 	ctx.Count("C17.sync-level-judged")
 	// "reflected in the error the sync reports": a sync in which pod calls failed does not return success
-	if out.Err == nil {
+	// (clean-up deletions are the statement's "or PodsCleanupDone" case: the canary role reports them
+	// through that condition and a prompt requeue instead of an error; either is accepted there)
+	if out.Err == nil && !(mode == "cleanup" && out.Result.Requeue) {
 		ctx.Violation("C17", "C17.error-reported-by-sync", attrs, map[string]any{"mode": mode, "nodes": n, "failedCalls": nFailed, "statusWritten": statusWrite != nil})
 	}
 	if statusWrite == nil {
